@@ -82,8 +82,10 @@ def add_bt(exp):
 
 
 def spec_of(lang, seed, sw, depth, cap, translate=None, plugins=()):
+    """`cap` = CPU seconds allowed for one program (enforced by c01_plugin with ITIMER_PROF, so that the set of
+    programs cut off does not depend on the load of the machine); the wall-clock cap of pipeline.run_one is 8 x that"""
     s = {"lang": lang, "seed": seed, "switches": tuple(sw), "max_depth": depth, "stages": ["gen"], "export": True,
-         "cap": cap, "plugins": list(plugins)}
+         "cap": 8 * cap, "cpu_cap": cap, "plugins": list(plugins)}
     if translate:
         s["translate"] = translate
     return s
@@ -217,7 +219,7 @@ def triage(run, spec, ans, rq, javac_cache, unexplained_cond=True):
     if spec["lang"] == "java":
         key = json.dumps(replay_key(spec), sort_keys=True)
         if key not in javac_cache:
-            r = pipeline.run_one(spec_of("java", spec["seed"], spec["switches"], spec["max_depth"], spec["cap"],
+            r = pipeline.run_one(spec_of("java", spec["seed"], spec["switches"], spec["max_depth"], spec["cpu_cap"],
                                          translate=["java"]))
             txt = r.get("stages", {}).get("gen", {}).get("texts", {}).get("java")
             javac_cache[key] = javac_verdict(txt) if txt else ("unavailable", "no translation")
